@@ -399,6 +399,27 @@ var yfKinds = []*Kind{
 		p.Out()
 		p.W("}")
 	}},
+	// the delegate re-points the field / element it was delegated from while it is being drained
+	{Name: "YFSlot", Yields: true, EventFirst: false, Print: func(p *Printer, s *Stmt) {
+		p.W("{")
+		p.In()
+		p.W("h := &Slot{}")
+		p.W("h.it = Gswap(c, h)")
+		p.W("%s", p.YF("h.it"))
+		p.W("c.E(%d)", p.ID())
+		p.Out()
+		p.W("}")
+	}},
+	{Name: "YFElem", Yields: true, EventFirst: false, Print: func(p *Printer, s *Stmt) {
+		p.W("{")
+		p.In()
+		p.W("h := &Slot{all: make([]%s, 1)}", p.IterT("int"))
+		p.W("h.all[0] = Gswap(c, h)")
+		p.W("%s", p.YF("h.all[0]"))
+		p.W("c.E(%d)", p.ID())
+		p.Out()
+		p.W("}")
+	}},
 	{Name: "ForPostYF", Arity: 1, Loop: true, Yields: true, EventFirst: true, Print: func(p *Printer, s *Stmt) {
 		a := p.ID()
 		p.W("for ; c.B(%d); %s {", a, p.YF(fmt.Sprintf("rt.S(c, %d, G2(c))", p.ID())))
@@ -425,7 +446,7 @@ func init() {
 	CFAll.byN = nil
 	YF = CFAll.Sub("YF",
 		"Y", "E", "Br", "Co", "Rt",
-		"YF0", "YF2", "YFInf", "YFRec", "YFCh", "YFTree", "YFAdv", "YFDone", "YFTwice",
+		"YF0", "YF2", "YFInf", "YFRec", "YFCh", "YFTree", "YFAdv", "YFDone", "YFTwice", "YFSlot", "YFElem",
 		"If", "IfElse", "Sw2", "SwNoTag", "ForInf", "While", "For3", "ForPostY", "Block",
 		"ForPostYF", "ForInitYF", "SwInitYF")
 }
@@ -499,6 +520,27 @@ var injectKinds = []*Kind{
 		p.W("select {")
 		p.W("default:")
 		p.Blk(s.Ch[0])
+		p.W("}")
+	}},
+	{Name: "XSelectBrk", EventFirst: true, Print: func(p *Printer, s *Stmt) {
+		p.W("select {")
+		p.W("default:")
+		p.W("\tif c.B(%d) {", p.ID())
+		p.W("\t\tbreak")
+		p.W("\t}")
+		p.W("\tc.E(%d)", p.ID())
+		p.W("}")
+	}},
+	// a yield-free range over a pointer to an array is left as a native loop: break / continue stay native
+	{Name: "NRangePtrBrk", EventFirst: false, Print: func(p *Printer, s *Stmt) {
+		p.W("for _, v := range &[3]int{%d, %d, %d} {", p.ID(), p.ID(), p.ID())
+		p.W("\tif c.B(%d) {", p.ID())
+		p.W("\t\tcontinue")
+		p.W("\t}")
+		p.W("\tif c.B(%d) {", p.ID())
+		p.W("\t\tbreak")
+		p.W("\t}")
+		p.W("\tc.X(%d, v)", p.ID())
 		p.W("}")
 	}},
 	{Name: "XDefer", Print: func(p *Printer, s *Stmt) { p.W("defer c.E(%d)", p.ID()) }},
@@ -628,6 +670,18 @@ var injectKinds = []*Kind{
 		p.W("\t}")
 		p.W("}()")
 	}},
+	{Name: "NSelectBreak", EventFirst: true, Print: func(p *Printer, s *Stmt) {
+		p.W("func() {")
+		p.W("\tselect {")
+		p.W("\tdefault:")
+		p.W("\t\tif c.B(%d) {", p.ID())
+		p.W("\t\t\tbreak")
+		p.W("\t\t}")
+		p.W("\t\tc.E(%d)", p.ID())
+		p.W("\t}")
+		p.W("\tc.E(%d)", p.ID())
+		p.W("}()")
+	}},
 	{Name: "NSelect", Print: func(p *Printer, s *Stmt) {
 		p.W("func() {")
 		p.W("\tselect {")
@@ -655,8 +709,14 @@ var injectKinds = []*Kind{
 	}},
 	{Name: "NRangePtrArr", Print: func(p *Printer, s *Stmt) {
 		p.W("func() {")
-		p.W("\tfor _, v := range &[2]int{%d, %d} {", p.ID(), p.ID())
+		p.W("\tfor i, v := range &[3]int{%d, %d, %d} {", p.ID(), p.ID(), p.ID())
+		p.W("\t\tif i == 0 {")
+		p.W("\t\t\tcontinue")
+		p.W("\t\t}")
 		p.W("\t\tc.X(%d, v)", p.ID())
+		p.W("\t\tif i == 1 {")
+		p.W("\t\t\tbreak")
+		p.W("\t\t}")
 		p.W("\t}")
 		p.W("}()")
 	}},
@@ -675,13 +735,13 @@ func InjectStmts() []*Stmt {
 		{K: "XLblBrk", Ch: [][]*Stmt{{y}}}, {K: "XLblCont", Ch: [][]*Stmt{{y}}},
 		{K: "XLblBrk", Ch: [][]*Stmt{{e}}},
 		{K: "XSelect", Ch: [][]*Stmt{{y}}}, {K: "XSelect", Ch: [][]*Stmt{{e}}},
-		{K: "XDefer"}, {K: "XDeferIf"}, {K: "XDeferLoop"},
+		{K: "XDefer"}, {K: "XDeferIf"}, {K: "XDeferLoop"}, {K: "XSelectBrk"}, {K: "NRangePtrBrk"},
 		{K: "XFall", Ch: [][]*Stmt{{y}, {e}}}, {K: "XFall", Ch: [][]*Stmt{{e}, {y}}},
 		{K: "XRangePtrArr"},
 		{K: "XIfInitY", Ch: [][]*Stmt{{e}}}, {K: "XIfInitY", Ch: [][]*Stmt{{y}}},
 		{K: "XCloY"},
 		{K: "XElifInitY", Ch: [][]*Stmt{{e}}}, {K: "XElifInitY", Ch: [][]*Stmt{{y}}}, {K: "XElifInitY2", Ch: [][]*Stmt{{e}}}, {K: "XSwInitInElif", Ch: [][]*Stmt{{e}}},
-		{K: "NGoto"}, {K: "NLbl"}, {K: "NLbl3"}, {K: "NLoopCapture"}, {K: "NSelect"}, {K: "NDefer"}, {K: "NFall"}, {K: "NRangePtrArr"},
+		{K: "NGoto"}, {K: "NLbl"}, {K: "NLbl3"}, {K: "NLoopCapture"}, {K: "NSelectBreak"}, {K: "NSelect"}, {K: "NDefer"}, {K: "NFall"}, {K: "NRangePtrArr"},
 	}
 }
 
